@@ -362,8 +362,34 @@ fn fol_case(cfg: &Config, tmp: &std::path::Path, idx: u64, r: &mut Rng, st: &mut
             check_formula_text(&t, st);
         }
         3 => {
-            let (t, _) = gen_redex(r);
+            let (mut t, _) = gen_redex(r);
+            if r.chance(1, 8) {
+                // variable names with a leading underscore
+                t = t.replace("I$i", "_I$i").replace(" Z", " _Z").replace("(Z", "(_Z");
+            }
             check_formula_text(&t, st);
+            // what `simplify` prints for it must be accepted again as well
+            if let Ok(f) = t.parse::<fol::Formula>() {
+                let p = crate::kit::simp::PORTFOLIOS[r.upto(3)];
+                let sg = crate::kit::simp::STRATEGIES[r.upto(3)];
+                if let Ok((g, _)) = crate::kit::simp::run_strategy(p, sg, f, 200_000, 0) {
+                    st.inc("simplify_outputs");
+                    let printed = g.to_string();
+                    match printed.parse::<fol::Formula>() {
+                        Ok(back) if back == g || back.to_string() == printed => {}
+                        Ok(back) => st.violation(
+                            format!("simplify-output-reparse-differs:{}", c15_class(&printed, &back.to_string())),
+                            format!("the {} {:?} result does not print as itself when fed back", p.cli_name(), sg),
+                            J::obj().set("input", J::s(&t)).set("printed", J::s(&printed)).set("reparsed_prints_as", J::s(back.to_string())),
+                        ),
+                        Err(e) => st.violation(
+                            format!("simplify-output-rejected:{}", if printed.contains("_$") || printed.contains(" _ ") { "variable-named-underscore".to_string() } else { c15_class(&printed, "") }),
+                            format!("the {} {:?} result is rejected by the parser: {e}", p.cli_name(), sg),
+                            J::obj().set("input", J::s(&t)).set("printed", J::s(&printed)),
+                        ),
+                    }
+                }
+            }
         }
         4 => {
             // theories, specifications, user guides
